@@ -81,6 +81,19 @@ theorem le0 (n : Int) : le_ n (0 : Int) = decide (n ≤ 0) := by
 theorem bit0 (n : Int) : bit n (0) = decide (n % 2 = 1) := by
   unfold bit; simp
 
+/-- evaluate a regenerated mode table on decided inputs.  The lemma set contains every operator of the source text
+    the tables may be written with (`==` / `!=`, `!`, `is_zero`, `sign`, `>= 0`, `<= 0`, the parity bit) and the boolean
+    evaluation rules, so the proofs below do not depend on which of them — or which polarity / arm order — the text of
+    this run uses (`if a == P { X } else { Y }` and `if a != P { Y } else { X }` evaluate alike). -/
+syntax "tsimp" " [" term,* "]" : tactic
+macro_rules
+  | `(tactic| tsimp [$ls:term,*]) => do
+    let xs := ls.getElems
+    `(tactic| simp only [$[$xs:term],*, eq_, ne_, not_, HasNot.not_, is_zero, sign, HasSign.sign, ge0, le0, bit0, decide_true,
+      decide_false, Bool.not_true, Bool.not_false, if_true, if_false, Bool.false_eq_true, Bool.true_eq_false, reduceCtorEq,
+      Bool.and_true, Bool.true_and, Bool.and_false, Bool.false_and, Bool.or_true, Bool.true_or, Bool.or_false, Bool.false_or,
+      decide_not, Bool.not_not, ite_not, reduceIte, not_true_eq_false, not_false_eq_true, Bool.decide_eq_true])
+
 section
 variable (n f d : Int) (hd : 0 < d) (hf0 : f ≠ 0) (hf : |f| < d)
 include hd hf0 hf
@@ -91,10 +104,10 @@ theorem down_correct :
   unfold IsFloor round_low_part_Down
   rcases lt_or_gt_of_ne hf0 with hneg | hpos
   · rw [abs_neg' hneg] at hf
-    simp only [lowSign_neg hneg, eq_, decide_true, if_true, adj]
+    tsimp [lowSign_neg hneg, eq_, decide_true, if_true, adj]
     constructor <;> linarith
   · rw [abs_pos' hpos] at hf
-    simp only [lowSign_pos hpos, eq_, adj]
+    tsimp [lowSign_pos hpos, eq_, adj]
     constructor <;> simp <;> linarith
 
 /-- mode Up = ceiling -/
@@ -103,10 +116,10 @@ theorem up_correct :
   unfold IsCeil round_low_part_Up
   rcases lt_or_gt_of_ne hf0 with hneg | hpos
   · rw [abs_neg' hneg] at hf
-    simp only [lowSign_neg hneg, eq_, adj]
+    tsimp [lowSign_neg hneg, eq_, adj]
     constructor <;> simp <;> linarith
   · rw [abs_pos' hpos] at hf
-    simp only [lowSign_pos hpos, eq_, decide_true, if_true, adj]
+    tsimp [lowSign_pos hpos, eq_, decide_true, if_true, adj]
     constructor <;> linarith
 
 /-- mode Zero = toward zero -/
@@ -119,23 +132,23 @@ theorem zero_correct :
     rcases lt_or_gt_of_ne hf0 with hneg | hpos
     · rw [abs_neg' hneg] at hf
       have hN : ¬ 0 ≤ n * d + f := by linarith
-      simp only [lowSign_neg hneg, is_zero, hz, decide_false, sign, HasSign.sign, hn, if_true, adj, hN,
+      tsimp [lowSign_neg hneg, is_zero, hz, decide_false, sign, HasSign.sign, hn, if_true, adj, hN,
         if_false, Bool.false_eq_true]
       constructor <;> linarith
     · rw [abs_pos' hpos] at hf
       have hN : ¬ 0 ≤ n * d + f := by linarith
-      simp only [lowSign_pos hpos, is_zero, hz, decide_false, sign, HasSign.sign, hn, if_true, adj, hN,
+      tsimp [lowSign_pos hpos, is_zero, hz, decide_false, sign, HasSign.sign, hn, if_true, adj, hN,
         if_false, Bool.false_eq_true]
       constructor <;> linarith
   · subst hn
     rcases lt_or_gt_of_ne hf0 with hneg | hpos
     · rw [abs_neg' hneg] at hf
       have hN : ¬ 0 ≤ 0 * d + f := by linarith
-      simp only [is_zero, decide_true, if_true, adj, hN, if_false]
+      tsimp [is_zero, decide_true, if_true, adj, hN, if_false]
       constructor <;> linarith
     · rw [abs_pos' hpos] at hf
       have hN : 0 ≤ 0 * d + f := by linarith
-      simp only [is_zero, decide_true, if_true, adj, hN]
+      tsimp [is_zero, decide_true, if_true, adj, hN]
       constructor <;> linarith
   · have hnd : d ≤ n * d := by nlinarith
     have hz : ¬ n = 0 := by omega
@@ -143,12 +156,12 @@ theorem zero_correct :
     rcases lt_or_gt_of_ne hf0 with hneg | hpos
     · rw [abs_neg' hneg] at hf
       have hN : 0 ≤ n * d + f := by linarith
-      simp only [lowSign_neg hneg, is_zero, hz, decide_false, sign, HasSign.sign, hnn, if_false, adj, hN,
+      tsimp [lowSign_neg hneg, is_zero, hz, decide_false, sign, HasSign.sign, hnn, if_false, adj, hN,
         if_true, Bool.false_eq_true]
       constructor <;> linarith
     · rw [abs_pos' hpos] at hf
       have hN : 0 ≤ n * d + f := by linarith
-      simp only [lowSign_pos hpos, is_zero, hz, decide_false, sign, HasSign.sign, hnn, if_false, adj, hN,
+      tsimp [lowSign_pos hpos, is_zero, hz, decide_false, sign, HasSign.sign, hnn, if_false, adj, hN,
         if_true, Bool.false_eq_true]
       constructor <;> linarith
 
@@ -162,23 +175,23 @@ theorem away_correct :
     rcases lt_or_gt_of_ne hf0 with hneg | hpos
     · rw [abs_neg' hneg] at hf
       have hN : ¬ 0 ≤ n * d + f := by linarith
-      simp only [lowSign_neg hneg, is_zero, hz, decide_false, sign, HasSign.sign, hn, if_true, adj, hN,
+      tsimp [lowSign_neg hneg, is_zero, hz, decide_false, sign, HasSign.sign, hn, if_true, adj, hN,
         if_false, Bool.false_eq_true]
       constructor <;> linarith
     · rw [abs_pos' hpos] at hf
       have hN : ¬ 0 ≤ n * d + f := by linarith
-      simp only [lowSign_pos hpos, is_zero, hz, decide_false, sign, HasSign.sign, hn, if_true, adj, hN,
+      tsimp [lowSign_pos hpos, is_zero, hz, decide_false, sign, HasSign.sign, hn, if_true, adj, hN,
         if_false, Bool.false_eq_true]
       constructor <;> linarith
   · subst hn
     rcases lt_or_gt_of_ne hf0 with hneg | hpos
     · rw [abs_neg' hneg] at hf
       have hN : ¬ 0 ≤ 0 * d + f := by linarith
-      simp only [lowSign_neg hneg, is_zero, decide_true, if_true, adj, hN, if_false]
+      tsimp [lowSign_neg hneg, is_zero, decide_true, if_true, adj, hN, if_false]
       constructor <;> linarith
     · rw [abs_pos' hpos] at hf
       have hN : 0 ≤ 0 * d + f := by linarith
-      simp only [lowSign_pos hpos, is_zero, decide_true, if_true, adj, hN]
+      tsimp [lowSign_pos hpos, is_zero, decide_true, if_true, adj, hN]
       constructor <;> linarith
   · have hnd : d ≤ n * d := by nlinarith
     have hz : ¬ n = 0 := by omega
@@ -186,12 +199,12 @@ theorem away_correct :
     rcases lt_or_gt_of_ne hf0 with hneg | hpos
     · rw [abs_neg' hneg] at hf
       have hN : 0 ≤ n * d + f := by linarith
-      simp only [lowSign_neg hneg, is_zero, hz, decide_false, sign, HasSign.sign, hnn, if_false, adj, hN,
+      tsimp [lowSign_neg hneg, is_zero, hz, decide_false, sign, HasSign.sign, hnn, if_false, adj, hN,
         if_true, Bool.false_eq_true]
       constructor <;> linarith
     · rw [abs_pos' hpos] at hf
       have hN : 0 ≤ n * d + f := by linarith
-      simp only [lowSign_pos hpos, is_zero, hz, decide_false, sign, HasSign.sign, hnn, if_false, adj, hN,
+      tsimp [lowSign_pos hpos, is_zero, hz, decide_false, sign, HasSign.sign, hnn, if_false, adj, hN,
         if_true, Bool.false_eq_true]
       constructor <;> linarith
 
@@ -202,41 +215,41 @@ theorem half_even_correct :
   rcases lt_or_gt_of_ne hf0 with hneg | hpos
   · rw [abs_neg' hneg] at hf ⊢
     rcases lt_trichotomy (2 * -f) d with h | h | h
-    · simp only [cmp_lt h, adj]
+    · tsimp [cmp_lt h, adj]
       have e : 2 * (n * d + f) - 2 * ((n + 0) * d) = 2 * f := by ring
       rw [e, abs_of_neg (by linarith)]
       exact ⟨by linarith, fun hc => by omega⟩
-    · simp only [cmp_eq h, bit0, lowSign_neg hneg]
+    · tsimp [cmp_eq h, bit0, lowSign_neg hneg]
       by_cases hodd : n % 2 = 1
-      · simp only [hodd, decide_true, if_true, adj]
+      · tsimp [hodd, decide_true, if_true, adj]
         have e : 2 * (n * d + f) - 2 * ((n + -1) * d) = 2 * f + 2 * d := by ring
         rw [e, abs_of_pos (by linarith)]
         exact ⟨by linarith, fun _ => by omega⟩
-      · simp only [hodd, decide_false, adj, Bool.false_eq_true, if_false]
+      · tsimp [hodd, decide_false, adj, Bool.false_eq_true, if_false]
         have e : 2 * (n * d + f) - 2 * ((n + 0) * d) = 2 * f := by ring
         rw [e, abs_of_neg (by linarith)]
         exact ⟨by linarith, fun _ => by omega⟩
-    · simp only [cmp_gt h, lowSign_neg hneg, adj]
+    · tsimp [cmp_gt h, lowSign_neg hneg, adj]
       have e : 2 * (n * d + f) - 2 * ((n + -1) * d) = 2 * f + 2 * d := by ring
       rw [e, abs_of_pos (by linarith)]
       exact ⟨by linarith, fun hc => by omega⟩
   · rw [abs_pos' hpos] at hf ⊢
     rcases lt_trichotomy (2 * f) d with h | h | h
-    · simp only [cmp_lt h, adj]
+    · tsimp [cmp_lt h, adj]
       have e : 2 * (n * d + f) - 2 * ((n + 0) * d) = 2 * f := by ring
       rw [e, abs_of_pos (by linarith)]
       exact ⟨by linarith, fun hc => by omega⟩
-    · simp only [cmp_eq h, bit0, lowSign_pos hpos]
+    · tsimp [cmp_eq h, bit0, lowSign_pos hpos]
       by_cases hodd : n % 2 = 1
-      · simp only [hodd, decide_true, if_true, adj]
+      · tsimp [hodd, decide_true, if_true, adj]
         have e : 2 * (n * d + f) - 2 * ((n + 1) * d) = 2 * f - 2 * d := by ring
         rw [e, abs_of_neg (by linarith)]
         exact ⟨by linarith, fun _ => by omega⟩
-      · simp only [hodd, decide_false, adj, Bool.false_eq_true, if_false]
+      · tsimp [hodd, decide_false, adj, Bool.false_eq_true, if_false]
         have e : 2 * (n * d + f) - 2 * ((n + 0) * d) = 2 * f := by ring
         rw [e, abs_of_pos (by linarith)]
         exact ⟨by linarith, fun _ => by omega⟩
-    · simp only [cmp_gt h, lowSign_pos hpos, adj]
+    · tsimp [cmp_gt h, lowSign_pos hpos, adj]
       have e : 2 * (n * d + f) - 2 * ((n + 1) * d) = 2 * f - 2 * d := by ring
       rw [e, abs_of_neg (by linarith)]
       exact ⟨by linarith, fun hc => by omega⟩
@@ -248,11 +261,11 @@ theorem half_away_correct :
   rcases lt_or_gt_of_ne hf0 with hneg | hpos
   · rw [abs_neg' hneg] at hf ⊢
     rcases lt_trichotomy (2 * -f) d with h | h | h
-    · simp only [cmp_lt h, adj]
+    · tsimp [cmp_lt h, adj]
       have e : 2 * (n * d + f) - 2 * ((n + 0) * d) = 2 * f := by ring
       rw [e, abs_of_neg (by linarith)]
       exact ⟨by linarith, fun hc => by omega⟩
-    · simp only [cmp_eq h, ge0, le0, lowSign_neg hneg, eq_]
+    · tsimp [cmp_eq h, ge0, le0, lowSign_neg hneg, eq_]
       by_cases hle : n ≤ 0
       · have e : 2 * (n * d + f) - 2 * ((n + -1) * d) = 2 * f + 2 * d := by ring
         have hnd : n * d ≤ 0 := by nlinarith
@@ -270,17 +283,17 @@ theorem half_away_correct :
         rw [e', abs_of_neg (by linarith)]
         refine ⟨by linarith, fun _ => ?_⟩
         rw [abs_of_pos (by linarith), abs_of_pos (by linarith)]; linarith
-    · simp only [cmp_gt h, lowSign_neg hneg, adj]
+    · tsimp [cmp_gt h, lowSign_neg hneg, adj]
       have e : 2 * (n * d + f) - 2 * ((n + -1) * d) = 2 * f + 2 * d := by ring
       rw [e, abs_of_pos (by linarith)]
       exact ⟨by linarith, fun hc => by omega⟩
   · rw [abs_pos' hpos] at hf ⊢
     rcases lt_trichotomy (2 * f) d with h | h | h
-    · simp only [cmp_lt h, adj]
+    · tsimp [cmp_lt h, adj]
       have e : 2 * (n * d + f) - 2 * ((n + 0) * d) = 2 * f := by ring
       rw [e, abs_of_pos (by linarith)]
       exact ⟨by linarith, fun hc => by omega⟩
-    · simp only [cmp_eq h, ge0, le0, lowSign_pos hpos, eq_]
+    · tsimp [cmp_eq h, ge0, le0, lowSign_pos hpos, eq_]
       by_cases hge : 0 ≤ n
       · have e : 2 * (n * d + f) - 2 * ((n + 1) * d) = 2 * f - 2 * d := by ring
         have hnd : 0 ≤ n * d := by nlinarith
@@ -295,7 +308,7 @@ theorem half_away_correct :
         rw [e', abs_of_pos (by linarith)]
         refine ⟨by linarith, fun _ => ?_⟩
         rw [abs_of_neg (by linarith), abs_of_neg (by linarith)]; linarith
-    · simp only [cmp_gt h, lowSign_pos hpos, adj]
+    · tsimp [cmp_gt h, lowSign_pos hpos, adj]
       have e : 2 * (n * d + f) - 2 * ((n + 1) * d) = 2 * f - 2 * d := by ring
       rw [e, abs_of_neg (by linarith)]
       exact ⟨by linarith, fun hc => by omega⟩
